@@ -74,6 +74,7 @@ func (q *qpsLimiter) stopTicker() {
 }
 
 func (q *qpsLimiter) updateToken() {
+	verifTick()
 	var v int32
 	v = atomic.LoadInt32(&q.tokens)
 	if v < 0 {
